@@ -169,6 +169,16 @@ def c02_cases():
         hp = H([C("C0", "attr.s", [F("x")], auto_exc=True, post=True, post_mode=mode), C("C1", "define", [F("y", default="value", kw_only=True)])],
                exc_root="ValueError")
         out.append((f"post-init-{mode}-inherited-hook", c02.make_case(hp, call("t1", y="t2"), None, True)))
+    # -- K02a (repaired): a FALSY callable object given as the one validator of a field runs like any other validator
+    for kind in ("falsy", "len0"):
+        for tag, api in (("attr-s", "attr.s"), ("define", "define"), ("make-class", "make_class"), ("these", "these")):
+            h = H([C("C0", api, [F("x", validators=1, cb_odd=kind), F("y", default="factory", validators=1, v_deco=1, cb_odd=kind),
+                                 F("z", default="value", validators=1, cb_odd=kind, init=False)], post=True)])
+            out.append((f"falsy-validator-{kind}-{tag}", c02.make_case(h, call("t1"), None, True)))
+            out.append((f"falsy-validator-{kind}-{tag}-raises", c02.make_case(h, call("t1"), ["validator", "x", 0], True)))
+            out.append((f"falsy-validator-{kind}-{tag}-switched-off", c02.make_case(h, call("t1"), None, False)))
+        hi = H([C("C0", "attr.s", [F("x", validators=1, cb_odd=kind)]), C("C1", "define", [F("y", default="value", validators=1, cb_odd=kind)])])
+        out.append((f"falsy-validator-{kind}-inherited", c02.make_case(hi, call("t1"), None, True)))
     # -- hostile-but-valid callable objects as validators / converters in the full trace
     for kind in sorted(ib.CB_ODD):
         h = H([C("C0", "attr.s", [F("x", converter="c10", validators=2, cb_odd=kind), F("y", default="factory", converter="plain", validators=1, cb_odd=kind)],
